@@ -28,7 +28,52 @@ class Engine3(pyvc.Engine):
         # loop ordinals are keyed by the AST node (source order), so a loop reached on several paths keeps its sidecar invariant
         if not hasattr(self, '_loop_ord'): self._loop_ord = {id(n): k for k, n in enumerate(_loops_in_source_order(self.node))}
         self.loopk = self._loop_ord[id(s)]
-        return super().loop(s, p)
+        if not getattr(self.spec, 'loops_may_allocate', False): return super().loop(s, p)
+        return self.loop_alloc(s, p)
+    def loop_alloc(self, s, p):
+        """pyvc.Engine.loop (same rule, same order of steps) for bodies that allocate: the allocation map is havocked together with the written heap fields
+        (objects created by earlier iterations are allocated in the arbitrary-iteration state; the sidecar invariant says which), and stays true for the
+        objects the sidecar lists in `roots` (allocated before the loop).  Only list iteration is needed here."""
+        k = self.loopk; self.loopk += 1
+        it = self.ev(s.iter, p)
+        if k not in self.spec.invariants: raise Unsupported(f'loop {k}@{s.lineno} has no invariant (stale or missing contract)')
+        inv = self.spec.invariants[k]
+        if not it.kind.startswith('list['): raise Unsupported('allocating loop over ' + it.kind)
+        lst = it; n = self.llen(lst, p)
+        bindf = lambda q, i, lst=lst: self.assign(s.target, self.mk(elem_kind(lst.kind), self.litems(lst, q)[i]), q)
+        pre = p.fork()
+        for label, g in inv(self, Ctx('goal'), p, pre, z3.IntVal(0)): self.emit(p, f'loop{k}-entry:{label}', g, s.lineno)
+        _, wn = self.written(s.body)
+        saved_rec, saved_k = set(pyvc.REC), self.loopk; pyvc.REC.clear(); self.mute += 1
+        try:
+            d = p.fork(); di = fresh(f'dry{k}', I); d.pc += [0 <= di, di < n]; bindf(d, di); self.block(s.body, d)
+        finally:
+            self.mute -= 1
+        wf = set(pyvc.REC); pyvc.REC.clear(); pyvc.REC.update(saved_rec | wf); self.loopk = saved_k
+        wf.discard('$alloc')
+        def havoc(q, tag):
+            q.heap.havoc(wf, f'L{k}{tag}')
+            q.heap.alloc = fresh(f'alloc_L{k}{tag}', z3.ArraySort(Ref, Bo))
+            q.pc += [q.heap.alloc[r] for r in self.spec.roots(self)]           # allocated before the loop, hence still allocated
+            for nme in wn:
+                if nme in q.env and (q.env[nme].kind in ('int', 'bool', 'str', 'ref') or q.env[nme].kind.startswith('list[')):
+                    q.env[nme] = V(q.env[nme].kind, fresh(f'{nme}_L{k}{tag}', sort_of(q.env[nme].kind)))
+        outs = []
+        b = p.fork(); havoc(b, 'i'); i = fresh(f'i{k}', I); b.pc += [0 <= i, i < n]
+        ch = Ctx('hyp')
+        for label, g in inv(self, ch, b, pre, i): b.pc.append(g)
+        b.facts += ch.schem; bindf(b, i)
+        for o in self.block(s.body, b):
+            if o.kind in ('next', 'continue'):
+                for label, g in inv(self, Ctx('goal'), o.path, pre, i + 1): self.emit(o.path, f'loop{k}-preserve:{label}', g, s.lineno)
+            elif o.kind == 'break': outs.append(Outcome('next', o.path))
+            else: outs.append(o)
+        a = p.fork(); havoc(a, 'x'); ch = Ctx('hyp')
+        for label, g in inv(self, ch, a, pre, n): a.pc.append(g)
+        a.facts += ch.schem
+        if s.orelse: outs += self.block(s.orelse, a)
+        else: outs.append(Outcome('next', a))
+        return outs
     def stmt(self, s, p):
         # nested zero-argument function: remembered, inlined at call sites
         if isinstance(s, ast.FunctionDef):
@@ -50,15 +95,72 @@ class Engine3(pyvc.Engine):
                 self.assign(s.targets[0], self.newlist(self.spec.empty_list_kind(s.lineno), [], p), p); return [Outcome('next', p)]
             raise Unsupported('`or []` on ' + a.kind)
         return super().stmt(s, p)
+    def ev(self, e, p):
+        if isinstance(e, ast.ListComp): return self.filter_comprehension(e, p)
+        return super().ev(e, p)
+    def filter_comprehension(self, e, p):
+        """[x for x in L if cond(x)] over an int list, by its definition: a fresh list r with len(r) == cnt(len L) where cnt(0) = 0,
+        cnt(k+1) = cnt(k) + [cond(L[k])], and r[cnt(k)] == L[k] whenever cond(L[k]).  The sidecar may name the counter it uses for the same predicate
+        (Spec.comp_counter); the engine then emits the obligation that the two predicates agree and uses the sidecar's counter."""
+        g = e.generators[0] if len(e.generators) == 1 else None
+        if g is None or g.is_async or len(g.ifs) != 1 or not isinstance(g.target, ast.Name) or not (isinstance(e.elt, ast.Name) and e.elt.id == g.target.id):
+            raise Unsupported(f'comprehension@{e.lineno} is not a plain filter')
+        src = self.ev(g.iter, p)
+        if src.kind != 'list[int]': raise Unsupported('filter comprehension over ' + src.kind)
+        n = self.llen(src, p); it = self.litems(src, p)
+        ph = fresh('cmp_x', I); q = p.fork(); q.env[g.target.id] = vint(ph); npc = len(q.pc); self.mute += 1
+        try: c = self.truth(self.ev(g.ifs[0], q), q)
+        finally: self.mute -= 1
+        if len(q.pc) != npc: raise Unsupported('comprehension condition is not a pure expression')
+        pred = lambda k: z3.substitute(c, (ph, it[k]))
+        k = len(getattr(self, 'comps', [])); self.comps = getattr(self, 'comps', []) + [None]
+        named = self.spec.comp_counter(self, k, src) if hasattr(self.spec, 'comp_counter') else None
+        if named is not None:
+            cnt, spred = named
+            sk = fresh('cmp_k', I)
+            self.emit(p, f'comprehension{k}-predicate-is-the-sidecar-counter-predicate@{e.lineno}', Implies(And(0 <= sk, sk < n), pred(sk) == spred(sk)), e.lineno)
+        else:
+            cnt = z3.Function(f'cmp{k}_cnt', I, I); p.pc.append(cnt(0) == 0)
+            p.facts.append(Schematic(1, lambda j: Implies(And(0 <= j, j < n), cnt(j + 1) == cnt(j) + If(pred(j), 1, 0)), f'ghost:cmp{k}-step'))
+        r = p.heap.new(p, 'cmp'); arr = fresh('cmp_items', z3.ArraySort(I, I))
+        p.facts.append(Schematic(1, lambda j: Implies(And(0 <= j, j < n, pred(j)), arr[cnt(j)] == it[j]), f'cmp{k}-items'))
+        p.heap.store(r, '$items:int', arr); p.heap.store(r, '$len', cnt(n)); self.comps[k] = (cnt, pred, n)
+        return V('list[int]', r)
+    def extend_slice(self, recv, sub, p, line):
+        """recv.extend(src[a:b]) with python slice normalisation (None / negative / out-of-range bounds)"""
+        src = self.ev(sub.value, p); sl = sub.slice
+        if sl.step is not None or not src.kind.startswith('list[') or src.kind != recv.kind: raise Unsupported('extend with this slice')
+        m = self.llen(src, p); ek = elem_kind(recv.kind); fld = items_field(ek)
+        def normb(x, default):
+            if x is None: return default
+            v = self.ev(x, p).term
+            return If(v < 0, If(v + m < 0, 0, v + m), If(v > m, m, v))
+        lo, hi = normb(sl.lower, z3.IntVal(0)), normb(sl.upper, m); cnt = If(hi > lo, hi - lo, 0)
+        n0 = self.llen(recv, p); old = self.litems(recv, p); sit = self.litems(src, p)
+        self.frame(p, recv.term, fld, line)
+        new = fresh('ext', p.heap.fsort(fld)); pyvc.ARR_SIG[new.decl().name()] = pyvc.ARR_SIG[new.get_id()] = pyvc._canon_arr(old)   # both keyings of pyvc.ARR_SIG
+        p.facts.append(Schematic(1, lambda k: new[k] == If(k < n0, old[k], sit[lo + (k - n0)]), 'list.extend(slice)'))
+        p.heap.store(recv.term, fld, new); p.heap.store(recv.term, '$len', n0 + cnt)
     def call(self, e, p):
         if isinstance(e.func, ast.Name) and e.func.id in p.env and p.env[e.func.id].kind == 'pyfunc' and not e.args and not e.keywords:
             return self.ev(p.env[e.func.id].kw['expr'], p)
+        if isinstance(e.func, ast.Attribute) and e.func.attr == 'extend' and len(e.args) == 1 and isinstance(e.args[0], ast.Subscript) and isinstance(e.args[0].slice, ast.Slice):
+            recv = self.ev(e.func.value, p)
+            if recv.kind.startswith('list['): self.extend_slice(recv, e.args[0], p, e.lineno); return NONE
+        d = self.dotted(e.func) if isinstance(e.func, (ast.Attribute, ast.Name)) else None
+        if d in self.spec.constructors and d in getattr(self.spec, 'constructor_defaults', {}):
+            # dataclass constructor: fields that are not passed take their declared default (None)
+            given = set(self.spec.constructors[d][:len(e.args)]) | {k.arg for k in e.keywords}
+            r = super().call(e, p)
+            for nme in self.spec.constructor_defaults[d]:
+                if nme not in given: p.heap.store(r.term, nme, NULL)
+            return r
         return super().call(e, p)
 
 def run_function(fn, spec):
     E = Engine3(fn, spec); E.run(); return E
 
-def verify(rep, prop, fn, spec, timeout=60000, B=2, backend='z3-qf(typed-instantiation)', tag=''):
+def verify(rep, prop, fn, spec, timeout=60000, B=2, backend='z3-qf(typed-instantiation)', tag='', fallback=None):
     """pyvc.verify with Engine3 (same verdict discipline): every obligation of the function under its sidecar contract goes to the report"""
     from vlib import core
     rep.fn(fn)
@@ -70,7 +172,10 @@ def verify(rep, prop, fn, spec, timeout=60000, B=2, backend='z3-qf(typed-instant
     for ob, st, dt, det, mv in res:
         k = counts.get(ob.label, 0); counts[ob.label] = k + 1
         o = core.Ob(f'{prop}/{fn.name}/{ob.label}{tag}' + (f'#{k}' if k else ''), fn, backend, st, dt, detail=det if st != 'refuted' else f'{det}: {mv}', clause=ob.label)
-        if st == 'refuted': o.replay = dict(confirmed=False, inputs=mv, note='bounded-scope counter-model of the VC; see the native stand-in of the same helper for a concrete failing input')
+        if st == 'refuted':
+            # the counter-model lives in the VC's vocabulary (heap snapshots, ghost counters); a concrete failing input is searched natively in the helper's small scope
+            fb = fallback(ob.label) if fallback else None
+            o.replay = fb if (fb and fb.get('confirmed')) else dict(confirmed=False, inputs=mv, note='bounded-scope counter-model of the VC; no failing input found natively in the small scope')
         out.append(o); rep.add(o)
     return out
 
@@ -93,6 +198,17 @@ def counter(name, n, pred, facts):
     cnt = z3.Function(name, I, I)
     facts.append(Schematic(1, lambda k: Implies(And(0 <= k, k < n), cnt(k + 1) == cnt(k) + If(pred(k), 1, 0)), f'ghost:{name}-step'))
     return cnt
+
+def induction(E, p, name, n, P, arity=0):
+    """lemma  forall k in [0, n], forall js: P(k, *js)  by induction on k, as two obligations of the function under proof (base, step);
+    afterwards available as a hypothesis.  P must be quantifier free in (k, js)."""
+    sk = [fresh(f'ind_j{a}', I) for a in range(arity)]
+    E.emit(p, f'lemma:{name}/base', P(z3.IntVal(0), *sk))
+    k = fresh('ind_k', I); q = p.fork(); q.pc += [0 <= k, k < n]
+    if arity: q.facts.append(Schematic(arity, lambda *js: P(k, *js), f'lemma:{name}-IH'))
+    else: q.pc.append(P(k))
+    E.emit(q, f'lemma:{name}/step', P(k + 1, *sk))
+    p.facts.append(Schematic(1 + arity, lambda k2, *js: Implies(And(0 <= k2, k2 <= n), P(k2, *js)), f'lemma:{name}'))
 
 def counter_inv(ctx, cnt, i, name):
     """the inductive facts about a counter that the proofs use: 0 <= cnt(j) <= j for j <= i, and cnt(j+1) <= cnt(i) for j < i"""
@@ -203,3 +319,173 @@ class SplitTensorsByIndices(Spec):
         S = self; h = p.heap; sl, ol, ul = [v.term for v in ret.kw['elts']]
         return [('results-fresh', And(Not(S.h0.alloc[sl]), Not(S.h0.alloc[ol]), Not(S.h0.alloc[ul]), z3.Distinct(sl, ol, ul)))] + self.facts(ctx, h, S.n, sl, ol, ul) \
                + [('updated-indices-below-number-of-present-operands', ctx.forall(1, lambda m: Implies(And(0 <= m, m < ln(h, ul)), And(0 <= items_i(h, ul)[m], items_i(h, ul)[m] < S.pc_(S.n)))))] + self.frame_kept(h)
+
+# ------------------------------------------------------------------------------------------------ ParamsGenerator._get_params_for_no_quant_op
+QT_CODES = {'NO_QUANTIZE': 0, 'ADD_QUANTIZE': 1, 'ADD_DEQUANTIZE': 2, 'QUANTIZE_TENSOR': 3, 'EMULATED_SUBCHANNEL': 4}     # qtyping.QuantTransformation values, written here
+tname = z3.Function('tensor_name_of', Ref, Str)        # tfl_flatbuffer_utils.get_tensor_name (uninterpreted pure function of the tensor object)
+class NoQuantOp(Spec):
+    """_get_params_for_no_quant_op(self, subgraph_op_id, op, subgraph_tensors) -> one TensorTransformationParams per operand != -1, inputs first then outputs, in order;
+    an input entry has producer None and exactly one consumer entry, an output entry has consumers None and a producer entry; that entry is
+    OpToTensorParams(subgraph_op_id, [NO_QUANTIZE], parameters=None).   requires: every operand is -1 or indexes subgraph_tensors."""
+    fields = {'inputs': 'list[int]', 'outputs': 'list[int]', 'subgraph_op_id': 'int', 'transformations': 'list[int]', 'parameters': 'ref', 'tensor_name': 'str', 'producer': 'ref', 'consumers': 'list[ref]'}
+    consts = {f'_QuantTrans.{k}': v for k, v in QT_CODES.items()}
+    constructors = {'qtyping.OpToTensorParams': ['subgraph_op_id', 'transformations', 'parameters'], 'qtyping.TensorTransformationParams': ['tensor_name', 'producer', 'consumers']}
+    constructor_defaults = {'qtyping.OpToTensorParams': ['parameters'], 'qtyping.TensorTransformationParams': ['producer', 'consumers']}
+    loops_may_allocate = True
+    def __init__(self):
+        self.callees = {'tfl_flatbuffer_utils.get_tensor_name': lambda E, p, args, kw, node: V('str', tname(args[0].term))}
+        self.invariants = {0: self.inv_in, 1: self.inv_out}
+    def bind(self, E, p):
+        h = p.heap; S = self
+        S.self_, S.op, S.st, S.oid = z3.Const('self', Ref), z3.Const('op', Ref), z3.Const('subgraph_tensors', Ref), z3.Int('subgraph_op_id')
+        p.env.update(self=V('ref', S.self_), subgraph_op_id=vint(S.oid), op=V('ref', S.op), subgraph_tensors=V('list[ref]', S.st))
+        for f in list(self.fields) + ['$len', '$items:int', '$items:ref']: h.arr(f)
+        S.h0 = h.copy(); h0 = S.h0
+        S.inl, S.outl = h0.load(S.op, 'inputs'), h0.load(S.op, 'outputs')
+        S.n_in, S.n_out, S.NT = ln(h0, S.inl), ln(h0, S.outl), ln(h0, S.st)
+        S.objs = [S.op, S.st, S.inl, S.outl]
+        p.pc += [z3.Distinct(*S.objs)] + [x != NULL for x in S.objs] + [h.alloc[x] for x in S.objs] + [S.n_in >= 0, S.n_out >= 0, S.NT >= 0]
+        S.IN, S.OUT, S.ST0 = items_i(h0, S.inl), items_i(h0, S.outl), items_r(h0, S.st)
+        F = p.facts.append
+        F(Schematic(1, lambda k: Implies(And(0 <= k, k < S.n_in), And(-1 <= S.IN[k], S.IN[k] < S.NT)), 'req:inputs-are--1-or-tensor-indices'))
+        F(Schematic(1, lambda k: Implies(And(0 <= k, k < S.n_out), And(-1 <= S.OUT[k], S.OUT[k] < S.NT)), 'req:outputs-are--1-or-tensor-indices'))
+        S.ci = counter('in_cnt', S.n_in, lambda k: S.IN[k] != -1, p.facts); S.co = counter('out_cnt', S.n_out, lambda k: S.OUT[k] != -1, p.facts)
+        p.pc += [S.ci(0) == 0, S.co(0) == 0]
+        S.kinds = kinds_by_target(E.node, {'tensor_params': 'ref'})
+    def roots(self, E): return self.objs
+    def empty_list_kind(self, line): return self.kinds.get(line, 'int')
+    def bounds(self, E): return [self.n_in, self.n_out, self.NT]
+    def may_write(self, E, p, ref, field): return z3.BoolVal(False)
+    def entry_ok(self, h, e, r):
+        """e is OpToTensorParams(subgraph_op_id, [NO_QUANTIZE], None); r = the result list (a different object from every list hanging off an entry)"""
+        tl = h.load(e, 'transformations')
+        return And(e != NULL, h.alloc[e], tl != r, h.load(e, 'subgraph_op_id') == self.oid, tl != NULL, h.alloc[tl], ln(h, tl) == 1, items_i(h, tl)[0] == QT_CODES['NO_QUANTIZE'], h.load(e, 'parameters') == NULL)
+    def input_entry(self, h, x, j, r):
+        cl = h.load(x, 'consumers')
+        return And(cl != r, x != NULL, h.alloc[x], h.load(x, 'tensor_name') == tname(self.ST0[self.IN[j]]), h.load(x, 'producer') == NULL, cl != NULL, h.alloc[cl], ln(h, cl) == 1, self.entry_ok(h, items_r(h, cl)[0], r))
+    def output_entry(self, h, x, j, r):
+        return And(x != NULL, h.alloc[x], h.load(x, 'tensor_name') == tname(self.ST0[self.OUT[j]]), h.load(x, 'consumers') == NULL, self.entry_ok(h, h.load(x, 'producer'), r))
+    def kept(self, h):
+        S = self
+        return [('inputs-kept', And(ln(h, S.inl) == S.n_in, ln(h, S.outl) == S.n_out, ln(h, S.st) == S.NT, items_i(h, S.inl) == S.IN, items_i(h, S.outl) == S.OUT, items_r(h, S.st) == S.ST0))]
+    def in_facts(self, ctx, h, R, i, r):
+        S = self
+        return [('input-entries', ctx.forall(1, lambda j: Implies(And(0 <= j, j < i, S.IN[j] != -1), And(0 <= S.ci(j), S.ci(j) < S.ci(i), self.input_entry(h, R[S.ci(j)], j, r)))))]
+    def inv_in(self, E, ctx, p, pre, i):
+        S = self; h = p.heap; r = pre.env['tensor_params'].term; R = items_r(h, r)
+        return [('i-range', And(0 <= i, i <= S.n_in)), ('result-allocated', And(h.alloc[r], Not(S.h0.alloc[r]))), ('length', ln(h, r) == S.ci(i))] + counter_inv(ctx, S.ci, i, 'in_cnt') + self.in_facts(ctx, h, R, i, r) + self.kept(h)
+    def out_facts(self, ctx, h, R, i, r):
+        S = self
+        return [('output-entries', ctx.forall(1, lambda j: Implies(And(0 <= j, j < i, S.OUT[j] != -1), And(0 <= S.co(j), S.co(j) < S.co(i), self.output_entry(h, R[S.ci(S.n_in) + S.co(j)], j, r)))))]
+    def inv_out(self, E, ctx, p, pre, i):
+        S = self; h = p.heap; r = pre.env['tensor_params'].term; R = items_r(h, r)
+        return [('i-range', And(0 <= i, i <= S.n_out)), ('result-allocated', And(h.alloc[r], Not(S.h0.alloc[r]))), ('length', ln(h, r) == S.ci(S.n_in) + S.co(i)), ('in-count-nonneg', S.ci(S.n_in) >= 0)] \
+               + counter_inv(ctx, S.co, i, 'out_cnt') + self.in_facts(ctx, h, R, S.n_in, r) + self.out_facts(ctx, h, R, i, r) + self.kept(h)
+    def ensures(self, E, ctx, p, ret):
+        S = self; h = p.heap; r = ret.term; R = items_r(h, r)
+        return [('result-fresh', Not(S.h0.alloc[r])), ('one-entry-per-operand-present', ln(h, r) == S.ci(S.n_in) + S.co(S.n_out))] + self.in_facts(ctx, h, R, S.n_in, r) + self.out_facts(ctx, h, R, S.n_out, r) + self.kept(h)
+
+# ------------------------------------------------------------------------------------------------ _materialize_ignored_tensors
+class MaterializeIgnored(NoQuantOp):
+    """_materialize_ignored_tensors(tensors, op_info, is_inbounding_tensor) -> result[m] is the entry of tensors[m]: named after it, on the consumer side
+    (inbound) or the producer side (outbound), OpToTensorParams(op_info.subgraph_op_index, [NO_QUANTIZE], parameters=None)"""
+    fields = dict(NoQuantOp.fields, subgraph_op_index='int')
+    consts = {f'qtyping.QuantTransformation.{k}': v for k, v in QT_CODES.items()}
+    def __init__(self):
+        NoQuantOp.__init__(self); self.invariants = {0: self.inv0}
+    def bind(self, E, p):
+        h = p.heap; S = self
+        S.ts, S.oi, S.inb = z3.Const('tensors', Ref), z3.Const('op_info', Ref), z3.Bool('is_inbounding_tensor')
+        p.env.update(tensors=V('list[ref]', S.ts), op_info=V('ref', S.oi), is_inbounding_tensor=vbool(S.inb))
+        for f in list(self.fields) + ['$len', '$items:int', '$items:ref']: h.arr(f)
+        S.h0 = h.copy(); h0 = S.h0
+        S.n = ln(h0, S.ts); S.T0 = items_r(h0, S.ts); S.oid = h0.load(S.oi, 'subgraph_op_index'); S.objs = [S.ts, S.oi]
+        p.pc += [S.ts != S.oi, S.ts != NULL, S.oi != NULL, h.alloc[S.ts], h.alloc[S.oi], S.n >= 0]
+        S.kinds = kinds_by_target(E.node, {'op_ignored_tensor_params': 'ref'})
+    def bounds(self, E): return [self.n]
+    def entry(self, h, x, j, r):
+        cl = h.load(x, 'consumers')
+        return And(x != NULL, h.alloc[x], h.load(x, 'tensor_name') == tname(self.T0[j]),
+                   If(self.inb, And(h.load(x, 'producer') == NULL, cl != NULL, cl != r, h.alloc[cl], ln(h, cl) == 1, self.entry_ok(h, items_r(h, cl)[0], r)),
+                      And(cl == NULL, self.entry_ok(h, h.load(x, 'producer'), r))))
+    def facts(self, ctx, h, r, i):
+        S = self; R = items_r(h, r)
+        return [('length', ln(h, r) == i), ('entries', ctx.forall(1, lambda j: Implies(And(0 <= j, j < i), self.entry(h, R[j], j, r)))),
+                ('inputs-kept', And(ln(h, S.ts) == S.n, items_r(h, S.ts) == S.T0, h.load(S.oi, 'subgraph_op_index') == S.oid))]
+    def inv0(self, E, ctx, p, pre, i):
+        S = self; h = p.heap; r = pre.env['op_ignored_tensor_params'].term
+        return [('i-range', And(0 <= i, i <= S.n)), ('result-allocated', And(h.alloc[r], Not(S.h0.alloc[r])))] + self.facts(ctx, h, r, i)
+    def ensures(self, E, ctx, p, ret):
+        return [('result-fresh', Not(self.h0.alloc[ret.term]))] + self.facts(ctx, p.heap, ret.term, self.n)
+
+# ------------------------------------------------------------------------------------------------ _merge_materialized_tensors
+class MergeMaterialized(Spec):
+    """_merge_materialized_tensors(tensor_params, ignored_in, ignored_out, op_info, inputs_to_ignore, outputs_to_ignore) -> the entries in operand order:
+       NI / NO = number of inputs / outputs != -1;  result has NI + NO entries;
+       result[i]      == ignored_in[icnt(i)]  if i in inputs_to_ignore  else tensor_params[i - icnt(i)]                        (i < NI)
+       result[NI + i] == ignored_out[ocnt(i)] if i in outputs_to_ignore else tensor_params[(NI - icnt(NI)) + i - ocnt(i)]      (i < NO)
+    where icnt(i) / ocnt(i) count the ignored positions below i.
+    requires (its single call site, materialize_standard_op): |ignored_in| == icnt(NI) == |inputs_to_ignore|, same for outputs,
+             |tensor_params| == (NI - icnt(NI)) + (NO - ocnt(NO))."""
+    fields = {'op': 'ref', 'inputs': 'list[int]', 'outputs': 'list[int]'}
+    def __init__(self): self.invariants = {0: self.inv_in, 1: self.inv_out}
+    def bind(self, E, p):
+        h = p.heap; S = self; C = lambda n: z3.Const(n, Ref)
+        S.tp, S.gi, S.go, S.oi, S.ii, S.io = C('tensor_params'), C('ignored_input_tensor_params'), C('ignored_output_tensor_params'), C('op_info'), C('inputs_to_ignore'), C('outputs_to_ignore')
+        p.env.update(tensor_params=V('list[ref]', S.tp), ignored_input_tensor_params=V('list[ref]', S.gi), ignored_output_tensor_params=V('list[ref]', S.go), op_info=V('ref', S.oi),
+                     inputs_to_ignore=V('list[int]', S.ii), outputs_to_ignore=V('list[int]', S.io))
+        for f in list(self.fields) + ['$len', '$items:int', '$items:ref']: h.arr(f)
+        S.h0 = h.copy(); h0 = S.h0
+        S.op = h0.load(S.oi, 'op'); S.inl, S.outl = h0.load(S.op, 'inputs'), h0.load(S.op, 'outputs')
+        S.objs = [S.tp, S.gi, S.go, S.oi, S.ii, S.io, S.op, S.inl, S.outl]
+        S.lens = [ln(h0, x) for x in (S.tp, S.gi, S.go, S.ii, S.io, S.inl, S.outl)]
+        p.pc += [z3.Distinct(*S.objs)] + [x != NULL for x in S.objs] + [h.alloc[x] for x in S.objs] + [l >= 0 for l in S.lens]
+        S.n_in, S.n_out = ln(h0, S.inl), ln(h0, S.outl); S.IN, S.OUT = items_i(h0, S.inl), items_i(h0, S.outl)
+        S.TP, S.GI, S.GO, S.II, S.IO = items_r(h0, S.tp), items_r(h0, S.gi), items_r(h0, S.go), items_i(h0, S.ii), items_i(h0, S.io)
+        S.nII, S.nIO = ln(h0, S.ii), ln(h0, S.io)
+        S.pin = lambda k: S.IN[k] != -1; S.pout = lambda k: S.OUT[k] != -1
+        S.ci = counter('in_cnt', S.n_in, S.pin, p.facts); S.co = counter('out_cnt', S.n_out, S.pout, p.facts); p.pc += [S.ci(0) == 0, S.co(0) == 0]
+        S.NI, S.NO = S.ci(S.n_in), S.co(S.n_out)
+        F = p.facts.append
+        S.iin = z3.Function('iin', I, Bo); S.iw = z3.Function('iin_w', I, I); S.oin = z3.Function('oin', I, Bo); S.ow = z3.Function('oin_w', I, I)
+        F(Schematic(1, lambda k: Implies(S.iin(k), And(0 <= S.iw(k), S.iw(k) < S.nII, S.II[S.iw(k)] == k)), 'ghost:iin-def1'))
+        F(Schematic(1, lambda j: Implies(And(0 <= j, j < S.nII), S.iin(S.II[j])), 'ghost:iin-def2'))
+        F(Schematic(1, lambda k: Implies(S.oin(k), And(0 <= S.ow(k), S.ow(k) < S.nIO, S.IO[S.ow(k)] == k)), 'ghost:oin-def1'))
+        F(Schematic(1, lambda j: Implies(And(0 <= j, j < S.nIO), S.oin(S.IO[j])), 'ghost:oin-def2'))
+        # lemmas about the operand counters first (NI, NO >= 0 bound the ranges of the next counters)
+        induction(E, p, 'in_cnt-bounds', S.n_in, lambda k: And(0 <= S.ci(k), S.ci(k) <= k)); induction(E, p, 'out_cnt-bounds', S.n_out, lambda k: And(0 <= S.co(k), S.co(k) <= k))
+        S.ic = counter('icnt', S.NI, S.iin, p.facts); S.oc = counter('ocnt', S.NO, S.oin, p.facts); p.pc += [S.ic(0) == 0, S.oc(0) == 0]
+        for nme, cnt, N, ln_ in (('icnt', S.ic, S.NI, S.nII), ('ocnt', S.oc, S.NO, S.nIO)):
+            induction(E, p, f'{nme}-bounds', N, lambda k, cnt=cnt: And(0 <= cnt(k), cnt(k) <= k))
+            induction(E, p, f'{nme}-monotone', N, lambda k, j, cnt=cnt: Implies(And(0 <= j, j <= k), And(cnt(j) <= cnt(k), j - cnt(j) <= k - cnt(k))), arity=1)
+            induction(E, p, f'{nme}-zero-when-list-empty', N, lambda k, cnt=cnt, ln_=ln_: Implies(ln_ == 0, cnt(k) == 0))
+        # requires (call site)
+        p.pc += [ln(h0, S.gi) == S.ic(S.NI), S.nII == S.ic(S.NI), ln(h0, S.go) == S.oc(S.NO), S.nIO == S.oc(S.NO), ln(h0, S.tp) == (S.NI - S.ic(S.NI)) + (S.NO - S.oc(S.NO))]
+        S.kinds = kinds_by_target(E.node, {'result_tensor_params': 'ref'})
+    def comp_counter(self, E, k, src): return [(self.ci, self.pin), (self.co, self.pout)][k] if k < 2 else None
+    def empty_list_kind(self, line): return self.kinds.get(line, 'int')
+    def bounds(self, E): return self.lens
+    def may_write(self, E, p, ref, field): return z3.BoolVal(False)
+    def kept(self, h):
+        S = self
+        return [('inputs-kept', And(*[ln(h, x) == l for x, l in zip((S.tp, S.gi, S.go, S.ii, S.io, S.inl, S.outl), S.lens)], items_r(h, S.tp) == S.TP, items_r(h, S.gi) == S.GI, items_r(h, S.go) == S.GO,
+                                    items_i(h, S.ii) == S.II, items_i(h, S.io) == S.IO, items_i(h, S.inl) == S.IN, items_i(h, S.outl) == S.OUT))]
+    def in_part(self, ctx, R, i):
+        S = self
+        return ctx.forall(1, lambda j: Implies(And(0 <= j, j < i), R[j] == If(S.iin(j), S.GI[S.ic(j)], S.TP[j - S.ic(j)])))
+    def out_part(self, ctx, R, i):
+        S = self; start = S.NI - S.ic(S.NI)
+        return ctx.forall(1, lambda j: Implies(And(0 <= j, j < i), R[S.NI + j] == If(S.oin(j), S.GO[S.oc(j)], S.TP[start + j - S.oc(j)])))
+    def inv_in(self, E, ctx, p, pre, i):
+        S = self; h = p.heap; r = pre.env['result_tensor_params'].term; R = items_r(h, r)
+        return [('i-range', And(0 <= i, i <= S.NI)), ('result-fresh', Not(S.h0.alloc[r])), ('indices', And(p.env['ignored_input_idx'].term == S.ic(i), p.env['input_idx'].term == i - S.ic(i))),
+                ('length', ln(h, r) == i), ('aligned-inputs', self.in_part(ctx, R, i))] + self.kept(h)
+    def inv_out(self, E, ctx, p, pre, i):
+        S = self; h = p.heap; r = pre.env['result_tensor_params'].term; R = items_r(h, r)
+        return [('i-range', And(0 <= i, i <= S.NO)), ('result-fresh', Not(S.h0.alloc[r])),
+                ('indices', And(p.env['ignored_output_idx'].term == S.oc(i), p.env['output_idx'].term == (S.NI - S.ic(S.NI)) + i - S.oc(i))),
+                ('length', ln(h, r) == S.NI + i), ('aligned-inputs', self.in_part(ctx, R, S.NI)), ('aligned-outputs', self.out_part(ctx, R, i))] + self.kept(h)
+    def ensures(self, E, ctx, p, ret):
+        S = self; h = p.heap; r = ret.term; R = items_r(h, r)
+        return [('one-entry-per-present-operand', ln(h, r) == S.NI + S.NO), ('aligned-inputs', self.in_part(ctx, R, S.NI)), ('aligned-outputs', self.out_part(ctx, R, S.NO)),
+                ('same-list-when-nothing-is-ignored', Implies(And(S.nII == 0, S.nIO == 0), r == S.tp))] + self.kept(h)
